@@ -2303,3 +2303,83 @@ func timeOrder(c *ssa.Call) (earlier, later ssa.Value, ok bool) {
 	}
 	return nil, nil, false
 }
+
+
+// valueSources: phiLeaves, and through a local slice that is filled and then walked (`texts = append(texts, c.BareCall)
+// ... for _, t := range texts`): an element read from such a slice stands for every value appended to it.
+func valueSources(v ssa.Value) []ssa.Value {
+	var out []ssa.Value
+	seen := map[ssa.Value]bool{}
+	var rec func(v ssa.Value, d int)
+	var elems func(sl ssa.Value, d int) bool
+	elems = func(sl ssa.Value, d int) bool {
+		ok := true
+		for _, l := range phiLeaves(sl) {
+			if seen[l] {
+				continue
+			}
+			seen[l] = true
+			switch x := l.(type) {
+			case *ssa.Const:
+				if x.Value != nil {
+					ok = false
+				}
+			case *ssa.MakeSlice:
+			case *ssa.Call:
+				cc, isAp := isBuiltinCall(x, "append")
+				if !isAp {
+					return false
+				}
+				els := appendedElems(cc)
+				if els == nil && len(cc.Args) > 1 {
+					return false
+				}
+				for _, e := range els {
+					rec(e, d+1)
+				}
+				if !elems(cc.Args[0], d+1) {
+					ok = false
+				}
+			case *ssa.Slice:
+				if al, isAl := x.X.(*ssa.Alloc); isAl && al.Comment == "slicelit" {
+					for _, r := range *al.Referrers() {
+						if ia, isIA := r.(*ssa.IndexAddr); isIA {
+							for _, rr := range *ia.Referrers() {
+								if st, isSt := rr.(*ssa.Store); isSt && st.Addr == ssa.Value(ia) {
+									rec(st.Val, d+1)
+								}
+							}
+						}
+					}
+				} else {
+					ok = false
+				}
+			default:
+				ok = false
+			}
+		}
+		return ok
+	}
+	rec = func(v ssa.Value, d int) {
+		if d > 8 {
+			out = append(out, v)
+			return
+		}
+		for _, l := range phiLeaves(v) {
+			if ld, ok := l.(*ssa.UnOp); ok && ld.Op == token.MUL {
+				if ia, ok := ld.X.(*ssa.IndexAddr); ok {
+					if _, isSlice := ia.X.Type().Underlying().(*types.Slice); isSlice {
+						n := len(out)
+						if elems(ia.X, d) && len(out) > n {
+							continue
+						}
+						out = out[:n]
+					}
+				}
+			}
+			out = append(out, l)
+		}
+	}
+	rec(v, 0)
+	return out
+}
